@@ -180,13 +180,13 @@ class NodeAnd:
 
 class NodeAssign:
     def __init__(self, identifier, expression, pos):
+        self.pos = pos
         if identifier.startswith("checkerlang_"):
             raise CklSyntaxError(
                 f"Cannot assign to system variable {identifier}", self.pos
             )
         self.identifier = identifier
         self.expression = expression
-        self.pos = pos
 
     def evaluate(self, environment):
         if not environment.isDefined(self.identifier):
@@ -207,6 +207,7 @@ class NodeAssign:
 
 class NodeAssignDestructuring:
     def __init__(self, identifiers, expression, pos):
+        self.pos = pos
         for identifier in identifiers:
             if identifier.startswith("checkerlang_"):
                 raise CklSyntaxError(
@@ -214,7 +215,6 @@ class NodeAssignDestructuring:
                 )
         self.identifiers = identifiers
         self.expression = expression
-        self.pos = pos
 
     def evaluate(self, environment):
         values = self.expression.evaluate(environment)
